@@ -53,8 +53,8 @@ package lineintersector
 //@   requires base(line1Start) != base(line1End) && base(line1Start) != base(line2Start) && base(line1Start) != base(line2End) && base(line1Start) != base(normPt) && base(line1End) != base(line2Start) && base(line1End) != base(line2End) && base(line1End) != base(normPt) && base(line2Start) != base(line2End) && base(line2Start) != base(normPt) && base(line2End) != base(normPt)
 //@   ensures line1Start[0] == old(line1Start[0]) - normPt[0] && line1Start[1] == old(line1Start[1]) - normPt[1] && line1End[0] == old(line1End[0]) - normPt[0] && line1End[1] == old(line1End[1]) - normPt[1]
 //@   ensures line2Start[0] == old(line2Start[0]) - normPt[0] && line2Start[1] == old(line2Start[1]) - normPt[1] && line2End[0] == old(line2End[0]) - normPt[0] && line2End[1] == old(line2End[1]) - normPt[1]
-//@   ensures [env-centre] normPt[0] == (max(min(old(line1Start[0]), old(line1End[0])), min(old(line2Start[0]), old(line2End[0]))) + min(max(old(line1Start[0]), old(line1End[0])), max(old(line2Start[0]), old(line2End[0])))) / 2.0
-//@   ensures [env-centre-y] normPt[1] == (max(min(old(line1Start[1]), old(line1End[1])), min(old(line2Start[1]), old(line2End[1]))) + min(max(old(line1Start[1]), old(line1End[1])), max(old(line2Start[1]), old(line2End[1])))) / 2.0
+//@   ensures [local-env-centre] normPt[0] == (max(min(old(line1Start[0]), old(line1End[0])), min(old(line2Start[0]), old(line2End[0]))) + min(max(old(line1Start[0]), old(line1End[0])), max(old(line2Start[0]), old(line2End[0])))) / 2.0
+//@   ensures [local-env-centre-y] normPt[1] == (max(min(old(line1Start[1]), old(line1End[1])), min(old(line2Start[1]), old(line2End[1]))) + min(max(old(line1Start[1]), old(line1End[1])), max(old(line2Start[1]), old(line2End[1])))) / 2.0
 //@   modifies line1Start[0:2], line1End[0:2], line2Start[0:2], line2End[0:2], normPt[0:2]
 
 //@ func intersectionWithNormalization
